@@ -137,6 +137,12 @@ def gen_registry(seed, n_base=3, n_derived=2, prefix='G', big=False):
         nm = '%s%dB%d' % (prefix, seed % 100000, i)
         types.append(gen_type(rnd, nm, used, 'ref'))
         names.append(nm)
+    # at least one non-reference unit that carries the (empty) SI prefix NONE explicitly
+    cands = [u for t in types for u in t['units'] if not (u.get('def') or {}).get('ref')]
+    if cands:
+        rnd.choice(cands)['pfx'] = 'NONE'
+        if len(cands) > 2:
+            rnd.choice(cands)['pfx'] = 'NONE'
     if big:
         # one type with more than 20 units and many tied scales (sorting algorithms behave differently beyond
         # small sizes; ties must keep attribute order)
